@@ -89,6 +89,9 @@ func (h *SignalHandler) Add(svcs ...Interface) {
 //
 // Handle must not be called concurrently with [Add].
 func (h *SignalHandler) Handle(ctx context.Context) (status osutil.ExitCode) {
+	// Make sure that a recovered panic, e.g. one raised by a service being
+	// shut down, is not reported as a successful shutdown.
+	status = osutil.ExitCodeFailure
 	defer slogutil.RecoverAndLog(ctx, h.logger)
 
 	for sig := range h.signal {
